@@ -570,6 +570,28 @@ def _pos_increments(F, b, expected):
                 stores.append((bi, s))
     if (expected is None and not stores) or (expected is not None and len(stores) != expected):
         why.append('%d stores to position (expected %s)' % (len(stores), expected if expected is not None else 'at least one'))
+    # every step that yields an item advances the cursor: no path entry -> `_0 = Some(..)` -> return that avoids all stores
+    store_blocks = {bi for bi, _ in stores}
+    somes = {bi for bi, bb in enumerate(b['blocks']) if not bb['cleanup'] and bi in cfg.reach and
+             any(s['k'] == 'assign' and s['dst']['l'] == 0 and not s['dst']['p'] and s['rv']['k'] == 'aggr' and s['rv']['ak'].endswith('Option::Some') for s in bb['stmts'])}
+
+    def reach_avoiding(starts):
+        seen, todo = set(starts), list(starts)
+        while todo:
+            x = todo.pop()
+            for y in cfg.succ[x]:
+                if y in seen or y in store_blocks or b['blocks'][y]['cleanup']:
+                    continue
+                seen.add(y)
+                todo.append(y)
+        return seen
+    if 0 not in store_blocks:
+        fwd = reach_avoiding({0})
+        for sb_ in sorted(somes & fwd):
+            after = reach_avoiding({sb_})
+            if any(b['blocks'][x]['term']['k'] == 'return' for x in after):
+                why.append('an item is yielded on a path that never advances the cursor (the same item is yielded again)')
+                break
     for bi, s in stores:
         term = pv.of_operand(s['rv']['ops'][0]) if s['rv'].get('ops') else None
         t = term[1] if isinstance(term, tuple) and term[0] == 'f' else term
